@@ -1,5 +1,211 @@
-import SsqlVerif.Model.Cep
-import SsqlVerif.Spec.Cep
+/-
+C15 — MATCH_RECOGNIZE reports valid leftmost-longest matches per partition.
+Property theorems only; helper lemmas live in `Proofs/CepNfa`, `Proofs/CepEngine`, `Proofs/CepRun`.
+
+All theorems quantify over every pattern (with consistent quantifier bounds, the ones `Compile`
+accepts), every DEFINE predicate (history-aware), every SKIP mode, every WITHIN ≥ 0, both
+engine modes (greedy / reluctant) unless said otherwise, every row-limit guard value, and every
+history of `Process`/`Flush` calls over any number of interleaved partitions — no bound on
+pattern size, stream length or number of partitions.
+
+Not proved (kept visible as `def … : Prop`, searched by the brute-force oracle on every run):
+`cep_complete_longest` — that no valid match is omitted and the longest one is chosen.
+-/
+import SsqlVerif.Proofs.CepRun
+import SsqlVerif.Generated.Facts
 set_option autoImplicit false
+
 namespace C15
+open Cep Cep.Spec
+
+/-! ### 1. the automaton -/
+
+/-- The Thompson construction of `cep/pattern.go` (sequence, alternation, `?`, `*`, `+`, `{n}`,
+`{n,m}`, `{n,}`, groups; PERMUTE is lowered to an alternation of sequences before) accepts
+exactly the words of the pattern language: a word labels a path from the start state to the
+accept state iff it is in `Lang p`. -/
+theorem nfa_accepts_iff_lang (p : Pat) (hv : p.valid) (w : List Sym) :
+    Accepts (compile p) w ↔ Lang p w :=
+  compile_accepts_iff p hv w
+
+/-- `Compile` on the parser's tree: whenever it succeeds, the compiled core tree has consistent
+quantifier bounds and the automaton accepts exactly its language; the trees it rejects are the
+ones `lower` rejects (negative min, max < min, PERMUTE over more than 6, exclusion). -/
+theorem compileNode_correct (n : PNode) (a : NFA) (h : compileNode n = .ok a) :
+    ∃ p, lower n = .ok p ∧ p.valid ∧ a = compile p ∧ ∀ w, Accepts a w ↔ Lang p w := by
+  unfold compileNode at h
+  obtain ⟨p, hp, rfl⟩ := except_map_ok h
+  exact ⟨p, hp, lower_valid n p hp, rfl, compile_accepts_iff p (lower_valid n p hp)⟩
+
+example : Accepts (compile (.seq (.lit 0) (.rep (.lit 1) 1 none))) [0, 1, 1] :=
+  (nfa_accepts_iff_lang _ (by simp [Pat.valid]) _).2
+    ⟨[0], [1, 1], rfl, rfl, 2, by omega, (by intro m hm; cases hm), [1], [1], rfl, rfl, [1], [], rfl, rfl, rfl⟩
+example : ¬ Lang (.seq (.lit 0) (.lit 1)) [0] := by
+  rintro ⟨u, v, h, hu, hv⟩; cases hu; cases hv; cases h
+example : (match lower (.rep (.lit 0) 3 1 true) with | .error .maxLtMin => true | _ => false) = true := by decide
+example : (compileNode (.permute [.lit 0, .lit 1])).toOption.map (·.tbl.length) = some 6 := by decide
+
+/-! ### 2. every emitted match is valid -/
+
+section
+variable {κ ρ : Type} [DecidableEq κ]
+
+/-- the engine configuration `NewEngine` builds for a query -/
+def cfgOf (q : Query ρ) (lazy : Bool) (maxRunRows : Nat) : Cfg ρ :=
+  { tbl := (compile q.pat).tbl, start := (compile q.pat).start, lazy := lazy, skip := q.skip,
+    within := q.within, maxRunRows := maxRunRows, define := q.define, ts := q.ts }
+
+theorem cand_valid (q : Query ρ) (hv : q.pat.valid) (lazy : Bool) (mr : Nat) (H : List ρ) (b : Run ρ)
+    (hb : Cand (cfgOf q lazy mr) H b) :
+    ValidMatch q b.hist ∧ 1 ≤ b.startSeq ∧ b.hist.map (·.1) = (H.drop (b.startSeq - 1)).take b.hist.length := by
+  obtain ⟨hok, hne, hacc⟩ := hb
+  refine ⟨⟨hne, ?_, hok.defs, ?_⟩, hok.start_pos, hok.rows⟩
+  · -- the classification is a word of the pattern
+    unfold runAccepting hasAccept at hacc
+    obtain ⟨i, hi, hai⟩ := List.any_eq_true.1 hacc
+    have h0 : i = 0 := (compile_accept_iff q.pat hv i).1 hai
+    subst h0
+    obtain ⟨n, hp⟩ := hok.path 0 hi
+    exact (compile_accepts_iff q.pat hv _).1 ⟨n, hp⟩
+  · -- WITHIN
+    cases hh : b.hist with
+    | nil => exact absurd hh hne
+    | cons x xs =>
+      simp only [List.map_cons, withinOK, List.all_eq_true, List.mem_map, decide_eq_true_eq]
+      rintro y ⟨z, hz, rfl⟩
+      have h1 := hok.within z (by rw [hh]; exact List.mem_cons_of_mem _ hz)
+      have h2 := hok.startTs x (by rw [hh]; rfl)
+      simp only [cfgOf] at h1 h2
+      omega
+
+/-- **emitted_match_valid.**  Whatever the history of `Process` / `Flush` calls: every reported
+match is a non-empty run of *consecutive rows of its own partition* (arrival order, rows
+`startSeq … startSeq+len-1`), its classification spells a word of the PATTERN, every row
+satisfies the DEFINE condition of its variable evaluated against the rows matched before it,
+and every row lies within WITHIN of the first. -/
+theorem emitted_match_valid (q : Query ρ) (hv : q.pat.valid) (hw : 0 ≤ q.within) (lazy : Bool) (mr : Nat)
+    (ops : List (Op κ ρ)) :
+    ∀ o ∈ (run (cfgOf q lazy mr) ({} : Engine κ ρ) ops).2, ∀ km ∈ o,
+      ValidMatch q km.2.rows ∧ 1 ≤ km.2.startSeq ∧
+      km.2.rows.map (·.1) = ((histOf km.1 ops).drop (km.2.startSeq - 1)).take km.2.rows.length := by
+  intro o ho km hkm
+  obtain ⟨b, hb, h1, h2⟩ := run_out (c := cfgOf q lazy mr) hw ops [] _ (EInv.init _) o ho km hkm
+  rw [h1, h2]
+  simpa using cand_valid q hv lazy mr _ b hb
+
+/-! ### 3. SKIP, MATCH_NUMBER -/
+
+theorem chain_of_run (c : Cfg ρ) (hw : 0 ≤ c.within) (ops : List (Op κ ρ)) (k : κ) :
+    ∃ ns no, Chain c 0 0 (outsOf k (run c ({} : Engine κ ρ) ops).2) ns no := by
+  have := run_chain (c := c) hw k ops [] ({} : Engine κ ρ) (EInv.init _)
+  exact ⟨_, _, this⟩
+
+/-- **skip_past_last_row_disjoint.**  Under AFTER MATCH SKIP PAST LAST ROW two matches reported
+for one partition never share a row: a later match starts after the last row of an earlier one
+(`startSeq`s are positions in the partition's arrival order by `emitted_match_valid`). -/
+theorem skip_past_last_row_disjoint (c : Cfg ρ) (hw : 0 ≤ c.within) (hs : c.skip = Skip.pastLast)
+    (ops : List (Op κ ρ)) (k : κ) :
+    (outsOf k (run c ({} : Engine κ ρ) ops).2).Pairwise
+      (fun m1 m2 => m1.startSeq + m1.rows.length ≤ m2.startSeq) := by
+  obtain ⟨ns, no, h⟩ := chain_of_run c hw ops k
+  exact h.disjoint hs
+
+/-- In every SKIP mode the matches of a partition are reported leftmost-first: their first rows
+are strictly increasing positions. -/
+theorem match_starts_increasing (c : Cfg ρ) (hw : 0 ≤ c.within) (ops : List (Op κ ρ)) (k : κ) :
+    (outsOf k (run c ({} : Engine κ ρ) ops).2).Pairwise (fun m1 m2 => m1.startSeq < m2.startSeq) := by
+  obtain ⟨ns, no, h⟩ := chain_of_run c hw ops k
+  exact h.increasing
+
+/-- **match_number_sequential.**  MATCH_NUMBER counts 1, 2, 3, … per partition, in the order of reporting. -/
+theorem match_number_sequential (c : Cfg ρ) (hw : 0 ≤ c.within) (ops : List (Op κ ρ)) (k : κ) :
+    (outsOf k (run c ({} : Engine κ ρ) ops).2).map (·.matchNo) =
+      List.range' 1 (outsOf k (run c ({} : Engine κ ρ) ops).2).length := by
+  obtain ⟨ns, no, h⟩ := chain_of_run c hw ops k
+  simpa using h.numbers.1
+
+/-! ### 4. Flush -/
+
+theorem run_inv (c : Cfg ρ) (hw : 0 ≤ c.within) : ∀ (ops pre : List (Op κ ρ)) (e : Engine κ ρ), EInv c pre e →
+    EInv c (pre ++ ops) (run c e ops).1
+  | [], pre, e, h => by simpa [run] using h
+  | op :: ops, pre, e, h => by
+    rw [run_cons]
+    have := run_inv c hw ops (pre ++ [op]) _ (step_inv hw h op)
+    simpa using this
+
+/-- **flush_emits_accepting.**  Greedy mode, any history `ops`, then `Flush` (Stop): every
+accepting candidate a partition still holds at or after its resumption point — a pending
+completion or a live run whose state set accepts (an unfinished `A+`) — is accounted for in the
+flush output of that partition: a match from the same start at least as long is reported, or
+the candidate's start lies in the rows a reported match with an earlier start skips. -/
+theorem flush_emits_accepting (c : Cfg ρ) (hw : 0 ≤ c.within) (hl : c.lazy = false) (ops : List (Op κ ρ)) (k : κ)
+    (x : Run ρ)
+    (hx : x ∈ (getPart (run c ({} : Engine κ ρ) ops).1 k).pending ∨
+          (x ∈ (getPart (run c ({} : Engine κ ρ) ops).1 k).runs ∧ runAccepting c x = true))
+    (hge : (getPart (run c ({} : Engine κ ρ) ops).1 k).nextStart ≤ x.startSeq) :
+    ∃ m ∈ outsOf k [(step c (run c ({} : Engine κ ρ) ops).1 Op.flush).2],
+      m.startSeq ≤ x.startSeq ∧ x.startSeq < skipToM c m.startSeq m.rows ∧
+      (m.startSeq = x.startSeq → x.hist.length ≤ m.rows.length) := by
+  have hinv := run_inv c hw ops [] ({} : Engine κ ρ) (EInv.init _)
+  simp only [step]
+  rw [outsOf_flushAll c k _ hinv.nodup]
+  exact flushPart_cover hl (hinv.getPart k) x hx hge
+
+/-! ### 5. partitions do not see each other -/
+
+/-- **cep_partition_isolation.**  The matches reported for partition `k` (content, order,
+MATCH_NUMBER) are those reported when only `k`'s rows (and the flushes) are fed. -/
+theorem cep_partition_isolation (c : Cfg ρ) (ops : List (Op κ ρ)) (k : κ) :
+    outsOf k (run c ({} : Engine κ ρ) ops).2 =
+      outsOf k (run c ({} : Engine κ ρ) (ops.filter (relevant k))).2 :=
+  isolation_aux k ops _ _ List.nodup_nil List.nodup_nil rfl
+
+/-! ### 6. not proved -/
+
+/-- a reported match as the oracle sees it -/
+def obsOfMatch (m : Match ρ) : Obs :=
+  { matchNo := m.matchNo, start := m.startSeq - 1, len := m.rows.length, labels := some (m.rows.map (·.2)) }
+
+/-- **Unproved.**  Completeness and longest choice: for greedy quantifiers, with no guard in play,
+after a final `Flush` the matches reported for a partition are exactly the greedy
+leftmost-longest scan of its rows (nothing valid omitted, longest chosen, SKIP rule applied).
+Checked on every run by evaluating `Spec.holds` on the implementation's output (a search). -/
+def cep_complete_longest : Prop :=
+  ∀ (κ ρ : Type) [DecidableEq κ] (q : Query ρ), q.pat.valid → 0 ≤ q.within → q.greedy = true →
+    ∀ (ops : List (Op κ ρ)) (k : κ), (∀ op ∈ ops, op matches Op.row _ _) →
+      holds q (histOf k ops) true
+        ((outsOf k (run (cfgOf q false (ops.length + 1)) ({} : Engine κ ρ) (ops ++ [Op.flush])).2).map obsOfMatch) = "ok"
+
+end
+
+/-! ### non-vacuity: the design's scenario — PATTERN (A A), partition 0 rows 1..4 with one row of
+partition 1 after its first row: matches (1,2),(3,4) of partition 0, numbered 1,2, disjoint -/
+
+def demoQuery : Query Nat :=
+  { pat := .seq (.lit 0) (.lit 0), skip := .pastLast, within := 100, define := fun _ _ _ => true,
+    ts := fun r => (r : Int), greedy := true }
+
+def demoOps : List (Op Nat Nat) :=
+  [.row 0 1, .row 1 2, .row 0 3, .row 0 4, .row 0 5, .flush]
+
+example : (outsOf 0 (run (cfgOf demoQuery false 100) {} demoOps).2).map
+    (fun m => (m.matchNo, m.startSeq, m.rows.map (·.1))) = [(1, 1, [1, 3]), (2, 3, [4, 5])] := by decide
+
+example : histOf 0 demoOps = [1, 3, 4, 5] := by decide
+
+/-- a pending accepting run that only `Flush` reports: PATTERN (A+), rows A A, then Stop -/
+example : (outsOf 0 (run (cfgOf { demoQuery with pat := .rep (.lit 0) 1 none } false 100) {}
+    ([.row 0 1, .row 0 2, .flush] : List (Op Nat Nat))).2).map (fun m => (m.matchNo, m.startSeq, m.rows.length)) =
+    [(1, 1, 2)] := by decide
+
 end C15
+
+/-! tie to the source constants (regenerated from the repository on every run) -/
+theorem C15.facts_cep :
+    Facts.types_DefaultMatchWithin = 3600000000000 ∧ 0 < Cep.defaultWithin ∧
+    Facts.cep_defaultMaxRunRows = 10000 ∧ Facts.cep_defaultMaxRuns = 10000 ∧ Facts.cep_defaultMaxPartitions = 10000 ∧
+    (Facts.cep_stEpsilon, Facts.cep_stMatch, Facts.cep_stAccept) = (0, 1, 2) ∧
+    (Facts.types_SkipPastLastRow, Facts.types_SkipToNextRow, Facts.types_SkipToFirst, Facts.types_SkipToLast,
+      Facts.types_SkipToVariable) = (0, 1, 2, 3, 4) ∧
+    Facts.cep_Engine_skipTo_intlits = [1, 1, 0, 1, 1] := by decide
